@@ -6,6 +6,7 @@ package nclient6
 // carries the advertised client id, server id and IA_NA; a rapid-commit REPLY is accepted directly.
 
 import (
+	"context"
 	"net"
 	"time"
 
@@ -250,6 +251,52 @@ func VerifC13Rapid(n1, n2 int) {
 			}
 		}
 	}
+	c.Close()
+	verifReach("end")
+}
+
+// VerifC11Rapid (C11): RapidSolicit whose SOLICIT is answered by a complete ADVERTISE one tick
+// later, after which the server stays silent: the REQUEST exchange that follows runs under the
+// caller's context as well. The context ends at a symbolic instant during that second exchange
+// (kind as in verifCtxErrKind); the call returns at that instant with the context's error, and
+// nothing is transmitted afterwards.
+func VerifC11Rapid(tries, kind int) {
+	adv := &verifServerMsg{ownXID: true, mt: uint8(dhcpv6.MessageTypeAdvertise), tag: verifBytes("a.tag", 2)}
+	conn := &verifServerConn{verifConn: newVerifConn(), replies: [][]*verifServerMsg{{adv}}, full: true}
+	conn.sid = verifBytes("server.ll", 6)
+	copy(conn.iaid[:], verifBytes("server.iaid", 4))
+	T := int64(verifU32("T"))
+	verifAssume(T >= 2)
+	c, err := NewWithConn(conn, verifHW, WithTimeout(time.Duration(T)), WithRetry(tries))
+	verifAssert(err == nil, "client-created")
+	budget, w := int64(0), T
+	for i := 0; i < tries; i++ {
+		budget += w
+		w += w
+	}
+	ctx := newVerifCtx()
+	at := int64(verifU64("ctx.at"))
+	verifAssume(at >= 2)
+	verifAssume(at < 1+budget)
+	var cerr error = errVerifCanceled
+	switch kind {
+	case 2:
+		cerr = context.Canceled
+	case 3:
+		cerr = context.DeadlineExceeded
+	}
+	ctx.endAt(at, cerr)
+	rep, rerr := c.RapidSolicit(ctx)
+	end := verifNow()
+	verifAssert(len(conn.seen) >= 2, "request-follows-advertise")
+	verifAssert(rep == nil, "no-response")
+	verifAssert(rerr == cerr, "fails-with-the-context-error")
+	verifAssert(end == at, "ends-when-the-context-ends")
+	m := len(conn.log)
+	done := make(chan struct{})
+	verifAt(2*budget+4, func() { close(done) })
+	<-done
+	verifAssert(len(conn.log) == m, "no-transmission-after-the-call-ended")
 	c.Close()
 	verifReach("end")
 }
